@@ -4,7 +4,7 @@
 import json, os, subprocess, sys
 ROOT='/verif/seeded'
 needs=json.load(open('/verif/tools/seed_needs.json'))
-ids=sys.argv[1:] or sorted(d for d in os.listdir(ROOT) if os.path.isdir(os.path.join(ROOT,d)))
+ids=sys.argv[1:] or sorted(d for d in os.listdir(ROOT) if os.path.isdir(os.path.join(ROOT,d)) and not d.startswith('_'))
 rows=[]
 for sid in ids:
     d=os.path.join(ROOT,sid)
